@@ -66,7 +66,7 @@ Section Agree.
       (forall L, (forall p, In p (foreign18 target t) -> L p = TL.local_name_of p e') ->
                  a = ast18 (fst (PS.type_lit L target c t))).
   Proof.
-    induction t as [n| | |pkg name u ms|x IH|x IH|len x IH|k IHk v IHv|txt]; intros Hwf e He; cbn [wf18] in Hwf.
+    induction t as [n| | |pkg name u ms|x IH|x IH|len x IH|k IHk v IHv|txt|ap an ar IHa]; intros Hwf e He; cbn [wf18] in Hwf.
     - (* basic *)
       exists (TL.ANamed [] n TL.ANil), e, []. rewrite app_nil_r. cbn [view18 TL.type_lit]. unfold TL.raw_ast. rewrite Hwf.
       repeat split; auto; try (intros p []).
@@ -128,6 +128,8 @@ Section Agree.
     - exists (TL.ANamed [] (bs "any") TL.ANil), e, []. rewrite app_nil_r. cbn [view18 TL.type_lit].
       replace (bytes_eqb [] (bs "error")) with false by reflexivity. rewrite andb_false_r.
       repeat split; auto; try (intros p []).
+    - (* alias: both readings go to the right-hand side *)
+      exact (IHa Hwf e He).
   Qed.
 End Agree.
 
